@@ -6,6 +6,7 @@ package ants
 // site 1 = inner worker, handler returned and the attempt is not yet timed out, before publishing;
 // site 2 = dispatcher, the attempt's context is done, before deciding the attempt.
 // site 3 = dispatcher, closure handed to an inner worker, before waiting for the outcome.
+// site 4 = inner worker, it has won the attempt's decision, before publishing result and error.
 var VerifHook func(site int)
 
 func verifYield(site int) {
